@@ -720,6 +720,10 @@ func runC15(c *Ctx) {
 				if variant == "redundant" && !c.Thorough() && (ti+pi)%3 != 0 {
 					continue
 				}
+				// quick tier: the package-local signature variant only for every third deeper type
+				if !c.Thorough() && pos == "siglocal" && t.depth() >= 2 && ti%3 != 0 {
+					continue
+				}
 				if ti >= nFull && ((variant == "minimal" && (ti+pi)%3 != 0) || (variant == "redundant" && (ti+pi)%3 != 1)) {
 					continue
 				}
@@ -759,7 +763,7 @@ func runC15(c *Ctx) {
 	c.Lap("server")
 
 	// a sample of batches through real fc processes: the emitted file must be identical
-	nproc := c.Pick(12, 80)
+	nproc := c.Pick(8, 60)
 	if nproc > nb {
 		nproc = nb
 	}
